@@ -11,7 +11,10 @@ Scenarios
   S2  a committed evaluation of version 1, then an evaluation of changed code (version 2: re-keep, link
       replacement) killed at crash_at; the recovery process first loads every previously committed path (old or new
       complete value, no exception), then evaluates version 2.
-In both: the recovery evaluation returns the plain values, a second one executes nothing, loads return the values.
+  S3  as S2, but the code is edited again before the recovery (version 3) and the recovering process has the SAME pid as
+      the killed one (pid reuse: a restarted container's main process): leftovers of the killed commit must not be
+      taken for the recovery's own.
+In all: the recovery evaluation returns the plain values, a second one executes nothing, loads return the values.
 """
 from vlib import h, tick
 from vlib.models import fsmodel, fastenv
@@ -37,11 +40,12 @@ ASSUMPTIONS = [
     "file-system model = POSIX as validated by the differential self-test of this run",
     fastenv.ASSUMPTION,
     "clock stub: the meta timestamp is a constant",
+    "os.getpid stub: every simulated process has the same pid in the model (worst case for pid-derived temporary names); the real-OS replay of S3 emulates the pid reuse, S1 / S2 replays use the real pids",
 ]
 OUTSIDE = ["non-local stores", "power loss / fsync reordering", "crashes inside user code (C10)", "torn writes other than a prefix of 0..3 bytes or all-but-one byte (stated bound on the torn length)"]
 BOUNDS = {
-    "quick": {"crash_at": "every mutating FS operation (mkdir / create-truncate / write / unlink / symlink / rename) of the scenario, as one symbolic int", "torn": "prefix of 0,1,2,3 or len-1 bytes", "payload": "symbolic ASCII str <= 2 chars per kept function", "scenarios": ["S1", "S2"]},
-    "thorough": {"crash_at": "as quick", "torn": "as quick", "payload": "symbolic str <= 2 chars (any code point)", "scenarios": ["S1", "S2"]},
+    "quick": {"crash_at": "every mutating FS operation (mkdir / create-truncate / write / unlink / symlink / rename) of the scenario, as one symbolic int", "torn": "prefix of 0,1,2,3 or len-1 bytes", "payload": "symbolic ASCII str <= 2 chars per kept function", "scenarios": ["S1", "S2", "S3 (crash points of the path-commit phase)"]},
+    "thorough": {"crash_at": "as quick, one crash point per query; S3 over the whole run (quick: over its path-commit phase)", "torn": "as quick", "payload": "symbolic str <= 1 char of any code point (multi-byte encodings: a torn write can end inside a character)", "scenarios": ["S1", "S2", "S3"]},
 }
 LAST_DETAIL = [""]
 INT_DIR, DATA_DIR = "/s/x/int", "/s/y/data"
@@ -102,11 +106,24 @@ def count_ops(scenario):
     tick.PAYLOAD.clear()
     tick.PAYLOAD.update({"inner": "a", "outer": "b"})
     fs = _TornFS()
-    if scenario == "S2":
+    if scenario in ("S2", "S3"):
         _process(fs, 1)
-    r = _process(fs, 2 if scenario == "S2" else 1)
+    r = _process(fs, 2 if scenario in ("S2", "S3") else 1)
     assert r[0] == "ok", r
+    LAST_TRACE[:] = list(fs.trace)[-fs.count:]
     return fs.count
+
+
+LAST_TRACE = []
+
+
+def first_commit_op(scenario):
+    """Index of the first mutating operation of the path-commit phase (the first symlink) of the process that will be killed."""
+    count_ops(scenario)
+    for i, t in enumerate(LAST_TRACE):
+        if t[0] == "symlink":
+            return i
+    return 0
 
 
 def crash_impl(a):
@@ -122,13 +139,13 @@ def crash_impl(a):
     fs = _TornFS()
     scenario = sel["scenario"]
     old = None
-    if scenario == "S2":
+    if scenario in ("S2", "S3"):
         r0 = _process(fs, 1)
         if r0[0] != "ok":
             return h.verdict(False)
         p1.VERSION = 1
         old = p1.plain()
-    ver = 2 if scenario == "S2" else 1
+    ver = 2 if scenario in ("S2", "S3") else 1
     r1 = _process(fs, ver, crash_at, torn)
     if r1[0] != "crash":
         # crash_at beyond the end of the run: the process completed
@@ -137,7 +154,7 @@ def crash_impl(a):
     p1.VERSION = ver
     new = p1.plain()
     ok = True
-    if scenario == "S2":
+    if scenario in ("S2", "S3"):
         rl = _process(fs, ver, action="load")
         if rl[0] != "ok":
             LAST_DETAIL[0] = "load of previously committed paths after the crash: %r" % (rl,)
@@ -147,10 +164,20 @@ def crash_impl(a):
                 if not (v == old[p] or v == new[p]):
                     LAST_DETAIL[0] = "dds.load(%s) after the crash returned %r (old %r, new %r)" % (p, v, old[p], new[p])
                     ok = False
+    if scenario == "S3":
+        # the code is edited once more before the recovery
+        ver = 3
+        p1.VERSION = ver
+        new = p1.plain()
     if ok:
         r2 = _process(fs, ver)
         if r2[0] != "ok" or r2[1] != new["/out"]:
             LAST_DETAIL[0] = "recovery evaluation: %r, expected %r" % (r2, new["/out"])
+            ok = False
+    if ok:
+        rl = _process(fs, ver, action="load")
+        if rl[0] != "ok" or rl[1] != [new["/out"], new["/d/in"]]:
+            LAST_DETAIL[0] = "loads after the recovery evaluation: %r, expected %r" % (rl, [new["/out"], new["/d/in"]])
             ok = False
     if ok:
         r3 = _process(fs, ver)
@@ -172,19 +199,23 @@ def crash_impl(a):
 
 def make_fn(fn, sel, tag):
     anystr = sel.get("anystr")
-    pres = ["%d <= crash_at < %d" % (sel["lo"], sel["hi"]), "0 <= torn <= 4", "len(pi) <= 2 and len(po) <= 2" + ("" if anystr else " and pi.isascii() and po.isascii()")]
+    pres = ["%d <= crash_at < %d" % (sel["lo"], sel["hi"]), "0 <= torn <= 4", ("len(pi) <= 1 and len(po) <= 1" if anystr else "len(pi) <= 2 and len(po) <= 2 and pi.isascii() and po.isascii()")]
     return h.gen_fn(tag, "crash", [("crash_at", "int"), ("torn", "int"), ("pi", "str"), ("po", "str")], pres, "harness.C06", "crash_impl")
 
 
 def queries(tier):
     qs = []
-    chunk = 3 if tier == "quick" else 2
-    for sc in ("S1", "S2"):
+    # quick: 2 crash points per query; S3 only over the path-commit phase (its subject: leftovers of a killed commit met by a
+    # recovery with the same pid), thorough: one crash point per query, S3 over the whole run
+    chunk = 2 if tier == "quick" else 1
+    for sc in ("S1", "S2", "S3"):
         n = count_ops(sc)
         lo = 0
+        if sc == "S3" and tier == "quick":
+            lo = first_commit_op(sc)
         while lo < n:
             hi = min(lo + chunk, n)
-            qs.append({"id": "%s.crash%02d-%02d" % (sc, lo, hi - 1), "fn": "crash", "sel": {"scenario": sc, "lo": lo, "hi": hi, "nops": n, "anystr": tier == "thorough"}, "timeout": 300 if tier == "quick" else 1200})
+            qs.append({"id": "%s.crash%02d-%02d" % (sc, lo, hi - 1), "fn": "crash", "sel": {"scenario": sc, "lo": lo, "hi": hi, "nops": n, "anystr": tier == "thorough"}, "timeout": 500 if tier == "quick" else 1500})
             lo = hi
     return qs
 
@@ -226,7 +257,7 @@ def gate(op, args):
 fs = fsmodel.RealFS(gate)
 fs.split_writes = False
 fsmodel.install(fs)
-store.os.getpid = os.getpid
+store.os.getpid = (lambda: cfg["pid"]) if cfg.get("pid") else os.getpid  # S3: pid reuse, the killed and the recovering process report the same pid
 out = {}
 try:
     api.set_store("local", cfg["int"], cfg["data"], None, None, None)
@@ -266,34 +297,45 @@ def replay(sel, args, fn):
     try:
         base = {"payload": {"inner": args["pi"], "outer": args["po"]}, "int": os.path.join(d, "x", "int"), "data": os.path.join(d, "y", "data"), "crash_at": None, "torn": 0, "action": "eval"}
         sc = sel["scenario"]
+        if sc == "S3":
+            base["pid"] = 4242
         tick.PAYLOAD.clear()
         tick.PAYLOAD.update(base["payload"])
         old = None
-        if sc == "S2":
+        if sc in ("S2", "S3"):
             r0 = _child(root, dict(base, version=1))
             if "exc" in r0:
                 return {"reproduced": False, "detail": "setup evaluation failed: %r" % r0}
             p1.VERSION = 1
             old = p1.plain()
-        ver = 2 if sc == "S2" else 1
+        ver = 2 if sc in ("S2", "S3") else 1
         p1.VERSION = ver
         new = p1.plain()
         r1 = _child(root, dict(base, version=ver, crash_at=args["crash_at"], torn=args["torn"]))
         if not r1.get("killed"):
             return {"reproduced": False, "detail": "the process completed before operation %d" % args["crash_at"]}
         where = "real OS, process killed (os._exit) at mutating FS op #%d (torn=%d) of scenario %s: " % (args["crash_at"], args["torn"], sc)
-        if sc == "S2":
+        if sc == "S3":
+            where += "(pid reuse emulated: os.getpid as seen by dds.store returns the same value in the killed and in the recovering process; recovery evaluates version 3) "
+        if sc in ("S2", "S3"):
             rl = _child(root, dict(base, version=ver, action="load"))
             if "exc" in rl:
                 return {"reproduced": True, "detail": where + "dds.load of a path committed before the crash fails in a fresh process: %s" % rl["exc"]}
             for (p, v) in zip(("/out", "/d/in"), rl["value"]):
                 if not (v == old[p] or v == new[p]):
                     return {"reproduced": True, "detail": where + "dds.load(%s) returns %r (old %r / new %r)" % (p, v, old[p], new[p])}
+        if sc == "S3":
+            ver = 3
+            p1.VERSION = ver
+            new = p1.plain()
         r2 = _child(root, dict(base, version=ver))
         if "exc" in r2:
             return {"reproduced": True, "detail": where + "the recovery evaluation fails: %s" % r2["exc"]}
         if r2["value"] != new["/out"]:
             return {"reproduced": True, "detail": where + "the recovery evaluation returns %r instead of %r" % (r2["value"], new["/out"])}
+        rl = _child(root, dict(base, version=ver, action="load"))
+        if "exc" in rl or rl["value"] != [new["/out"], new["/d/in"]]:
+            return {"reproduced": True, "detail": where + "loads after the recovery evaluation: %r, expected %r" % (rl, [new["/out"], new["/d/in"]])}
         r3 = _child(root, dict(base, version=ver))
         if "exc" in r3 or r3["value"] != new["/out"] or r3["log"]:
             return {"reproduced": True, "detail": where + "second recovery evaluation: %r" % (r3,)}
